@@ -3,6 +3,7 @@ SPECIFICATION Spec
 CONSTANTS
   Txs = {1, 2}
   Keys = {1, 2}
+  KsSplit = 100
   MaxOpsPerTx = 3
   Methods = {"get", "size_of", "scan", "range_lo", "insert", "remove", "rmw"}
   SingleWriter = FALSE
